@@ -41,6 +41,10 @@ P.update({
  "C18": sx("Differential symbolic execution: the sampler and its round trip through two self-describing f64-exact value-tree formats (serde_json::Value: structs as maps; a sequence-encoding format: structs as sequences) are both executed on the same symbolic point on every path; outputs, lambda and Gaussian vectors must be identical terms or proved equal; accessors and the re-serialised value tree must coincide. Includes a disconnected two-component graph.", "§6 C18", "differential symbolic execution original vs restored sampler (T=Sym) + z3"),
  "C19": sx("Observation through the user-supplied scalar on every path the solver does not prune: the list of to_f64 calls, the to_f64..from_f64 narrowings (must be exactly the Gamma draw with arguments (dod, x[2E-2], 5.0)), all from_f64 constants (must be table constants) and Narrow nodes in the dependency cone of every output; same for decompose_for_tropical and Vector called directly.", "§6 C19", "symbolic execution with narrowing log (T=Sym); solver decides path feasibility"),
 })
+# the thorough tier is registered only where it was run to completion on the unchanged tree (exit 0) in this sandbox;
+# for the others `./check <ID> --tier thorough` exists (bigger catalogue: kite, pentagon, banana4/5, mercedes, all D)
+# but did not finish within 50 minutes or was not run again after the last change, so it is not registered
+THOROUGH_VALIDATED = {"C12", "C13", "C15", "C16", "C17", "C19", "C20"}
 NA_PENDING = "check not built yet at this commit (planned, see DESIGN.md §6); not claimed"
 NA = {
  "C01": "integral identity over the whole hypercube (unbiasedness): not an assertion over one execution or a bounded set of executions; no bounded solver query expresses it (DESIGN §6 C01). The pointwise facts it needs are claimed under C04, C06-C11, C13.",
@@ -53,7 +57,7 @@ for pid in props:
         checks.append({
             "property_id": pid,
             "quick_cmd": "./check %s --tier quick" % pid,
-            "thorough_cmd": "./check %s --tier thorough" % pid,
+            **({"thorough_cmd": "./check %s --tier thorough" % pid} if pid in THOROUGH_VALIDATED else {}),
             "evidence_file": "/verif/evidence/%s.json" % pid,
             "replay_cmd_template": "./check %s --replay {path}" % pid,
             "engine": e.get("engine", "symx"),
